@@ -125,6 +125,12 @@ SubT(t, c, an, E, fuel) ==
          IF fuel = 0 \/ tv.k # "bool" THEN Bad("notASet") ELSE SubT(tv.c[1], c, an, E, fuel - 1)
   ELSE LET cs == [i \in DOMAIN t.c |-> SubT(t.c[i], c, an, E, fuel)] IN
        IF \E i \in DOMAIN cs : IsBad(cs[i]) THEN Bad("notASet") ELSE [t EXCEPT !.c = cs]
+\* term references: the constituents whose aliases the term of u refers to, and everything reachable that way
+RefNamesOf(q) == {q[i].s : i \in {j \in DOMAIN q : q[j].r}}
+TermRefs(c, u) == {x \in DOMAIN c : c[x].alias \in RefNamesOf(c[u].term)}
+RECURSIVE TermClosure(_, _)
+TermClosure(c, X) == LET T == X \cup UNION {TermRefs(c, u) : u \in X} IN IF T = X THEN X ELSE TermClosure(c, T)
+TermTransDeps(c, v) == TermClosure(c, TermRefs(c, v))
 PairOK(S, an, E, k) ==
   LET v == E[k]  c == S.c IN
   /\ k # v /\ k \in DOMAIN c /\ v \in DOMAIN c
@@ -132,6 +138,7 @@ PairOK(S, an, E, k) ==
   /\ ~(~IsBaseSetKind(c[k].kind) /\ IsBaseSetKind(c[v].kind))
   /\ ~(~IsBaseNotionKind(c[k].kind) /\ IsBaseNotionKind(c[v].kind))
   /\ k \notin TransDeps(c, v)                                   \* the value is not defined through the key
+  /\ k \notin TermTransDeps(c, v)                               \* nor named through the key's term
   /\ an[c[k].alias].ok /\ an[c[v].alias].ok
   /\ (IsBaseSetKind(c[k].kind) /\ ~IsBaseSetKind(c[v].kind)) => an[c[v].alias].type.k = "bool"     \* a base set can only become a set
   /\ v \notin DOMAIN E
@@ -146,15 +153,19 @@ EqAdmissible(S, E) ==
 EqPairs(E) == LET ks == SetToSeq(DOMAIN E) IN [i \in DOMAIN ks |-> <<ks[i], E[ks[i]]>>]
 \* KD: the keys whose texts win (option "keep the texts of the removed constituent"; a swapped pair of a synthesis has it):
 \* the value takes over the key's term and definition text; otherwise the value keeps its own
-Equate(S, E, KD) ==
+NewTermText == << [r |-> FALSE, s |-> "renamed"] >>
+\* CN: the keys whose value gets a new term text (option "create a new term")
+EquateM(S, E, KD, CN) ==
   LET names == [a \in {S.c[k].alias : k \in DOMAIN E} |-> S.c[E[UidOf(S.c, a)]].alias]
       c0 == [u \in DOMAIN S.c |-> IF \E k \in KD : E[k] = u
                                    THEN LET k == CHOOSE x \in KD : E[x] = u IN [S.c[u] EXCEPT !.term = S.c[k].term, !.text = S.c[k].text]
+                                   ELSE IF \E k \in CN : E[k] = u THEN [S.c[u] EXCEPT !.term = NewTermText]
                                    ELSE S.c[u]]
       c1 == [u \in DOMAIN S.c \ DOMAIN E |-> RenRec(c0[u], names)]
       ord1 == SelectSeq(S.ord, LAMBDA u : u \notin DOMAIN E)
       d == Dedup(ord1, c1, <<>>)
   IN [ord |-> d.ord, c |-> d.c, pairs |-> EqPairs(E) \o d.tr]
+Equate(S, E, KD) == EquateM(S, E, KD, {})
 \* where an identifier ends up: follow erased -> absorbing pairs
 RECURSIVE FinalOf(_, _, _)
 FinalOf(u, pairs, fuel) ==
